@@ -2,7 +2,7 @@
    overhead, MaxTransportMsgLength, the length-prefix size) are re-read from
    /repo's p2p/security/noise/rw.go on every run (gen/Consts_c02.v). *)
 From Coq Require Import List Arith ZArith NArith Bool Lia.
-From Verif Require Import lib.Wire c02.Model c02.Spec c02.Proofs c02.Proofs_Mon c02.Framing gen.Consts_c02.
+From Verif Require Import lib.Wire c02.Model c02.Spec c02.Proofs c02.Proofs_Mon c02.Framing c02.Streams gen.Consts_c02.
 Import ListNotations.
 
 (* HEADLINE (untampered): for every sequence of write sizes (any number, any
@@ -94,6 +94,33 @@ Theorem c02_framing_roundtrip : forall cts,
   dec_all (length cts) (concat (map enc_frame cts)) = Some cts.
 Proof. exact dec_all_enc. Qed.
 Print Assumptions c02_framing_roundtrip.
+
+(* private-network (PSK) connection: a position-indexed stream cipher.  For any
+   involutive xor and any keystream, whatever the split of the data into Write
+   calls and whatever pieces the raw connection hands to Read, the reader gets
+   back exactly what was written (and a prefix of it while data is in flight) *)
+Theorem c02_psk_fidelity : forall (byte : Type) (xor : byte -> byte -> byte),
+  (forall x k, xor (xor x k) k = x) ->
+  forall (ks : nat -> byte) ws pieces,
+  (concat pieces = wr byte xor ks 0 ws -> rd byte xor ks 0 pieces = concat ws) /\
+  (forall rest, concat pieces ++ rest = wr byte xor ks 0 ws ->
+     exists t, rd byte xor ks 0 pieces ++ t = concat ws).
+Proof.
+  intros byte xor Hx ks ws pieces. split.
+  - exact (psk_fidelity_l byte xor Hx ks ws pieces).
+  - intros rest. exact (psk_prefix_l byte xor Hx ks ws pieces rest).
+Qed.
+Print Assumptions c02_psk_fidelity.
+
+(* tcpreuse's sampled connection: after PeekBytes, any sequence of Reads (any
+   buffer sizes, any short reads) followed by WriteTo (io.Copy) delivers exactly
+   the original stream: the peeked bytes are replayed once to every reader entry
+   point *)
+Theorem c02_peek_replay : forall (byte : Type) k (stream : list byte) c rs,
+  peek byte k stream = Some c ->
+  snd (sreads byte c rs) ++ swriteto byte (fst (sreads byte c rs)) = stream.
+Proof. exact peek_replay_l. Qed.
+Print Assumptions c02_peek_replay.
 
 (* ---- non-vacuity ------------------------------------------------------------ *)
 Example monitor_rejects_wrong_byte :
